@@ -492,12 +492,20 @@ package server
 // keeps a replicator for every replica EXCEPT itself (startReplicating), so "is a replica" does not imply "has a
 // replicator".
 // (the hand-over dereferences its receiver: a request for which there is no replicator must not get this far)
+// (startReplicating builds that table; what the request handler needs from it - it hands a request to whatever replicator
+//  it finds under the replica's id - is that no slot of the table is empty: proved for the loop over the replica map)
+//@ func newReplicator serves C14
+//@   ensures [a-replicator-object] result != nil
+//@ func (*partition).startReplicating serves C14
+//@   assumes p != nil && p.Partition != nil && p.srv != nil && p.srv.config != nil && p.srv.logger != nil && p.srv.api != nil
+//@   ensures [no-empty-slot] forall r string :: (r in p.replicators) ==> p.replicators[r] != nil
+//@   loop 1 invariant p != nil && p.srv != nil && p.srv.config != nil && p.srv.api != nil && p.replicators != nil
+//@   loop 1 invariant forall r string :: (r in p.replicators) ==> p.replicators[r] != nil
 //@ func (*replicator).request serves C14, C02
 //@   requires [there-is-a-replicator-to-hand-the-request-to] r != nil
 //@ func (*partition).handleReplicationRequest serves C14, C02
 //@   call request requires [C02:only-requests-of-the-current-leader-epoch-are-served] req.LeaderEpoch == 0 || req.LeaderEpoch == p.LeaderEpoch
 //@   assumes p != nil && p.Partition != nil && p.srv != nil && p.srv.config != nil && p.srv.logger != nil && msg != nil
-//@   assumes [a-replicator-for-every-replica-but-this-server] forall r string :: (r in p.replicators) == ((r in p.replicas) && r != p.srv.config.Clustering.ServerID)
 //@   assumes forall r string :: (r in p.replicators) ==> p.replicators[r] != nil
 //@   safety
 
